@@ -212,7 +212,11 @@ func translate(repo string, sp *spec) (text string, names []string, err error) {
 	for _, tb := range sp.Tables {
 		p, fd := find(tb.File, tb.Init)
 		noteFile(tb.File)
-		fi := &funcInfo{sf: specFunc{File: tb.File, Func: tb.Init}, pkg: p, decl: fd, isTables: true}
+		fuel := tb.Fuel
+		if fuel == "" {
+			fuel = "300"
+		}
+		fi := &funcInfo{sf: specFunc{File: tb.File, Func: tb.Init, Fuel: fuel}, pkg: p, decl: fd, isTables: true}
 		fi.name = "tables_" + tb.Init
 		for _, v := range tb.Vars {
 			o := p.pkg.Scope().Lookup(v)
